@@ -58,7 +58,7 @@ def main():
         d = os.path.join(VERIF, 'seeded', keep)
         os.makedirs(d, exist_ok=True)
         for f in ('patch.diff', 'demo.py', 'meta.json'):
-            if os.path.exists(os.path.join(mdir, f)):
+            if os.path.exists(os.path.join(mdir, f)) and os.path.abspath(mdir) != os.path.abspath(d):
                 shutil.copy(os.path.join(mdir, f), os.path.join(d, f))
         meta = {}
         if os.path.exists(os.path.join(d, 'meta.json')):
